@@ -585,6 +585,8 @@ class Monitor:
             done = [sand(p.state == TaskState.COMPLETED, p.completion_time <= time) if p.state == TaskState.COMPLETED else False for p in ps]
             if task.terminal:
                 self.req("C02", "start-after-predecessors", sor(*done), tn)
+                # the join of a conditional runs after the branch that was taken: a cancelled (untaken) branch does not release it
+                self.req("C07", "join-starts-after-the-taken-branch", sor(*done), f"{tn}: parents {[(p.name, p.state.name) for p in ps]}")
             else:
                 self.req("C02", "start-after-predecessors", sand(*done), tn)
         ch = self.chosen.get(tn)
